@@ -26,10 +26,20 @@
 (*    the model lets the drain proceed at most a few instructions early.       *)
 (*                                                                            *)
 (* Deliberate deviations (DEV):                                               *)
-(*  DEV1 a read deadline in the future never fires (ReadTimeout/IdleTimeout    *)
-(*       are far longer than a run; the harness sets one hour like the repo's  *)
-(*       tests).  PromptUnblock is exactly the statement that nothing depends  *)
-(*       on it.                                                                *)
+(*  DEV1 with DeadlinesMayFire = FALSE a read deadline in the future never     *)
+(*       fires (ReadTimeout/IdleTimeout are far longer than a run; the harness *)
+(*       sets one hour like the repo's tests).  PromptUnblock is exactly the   *)
+(*       statement that nothing depends on it.  With DeadlinesMayFire = TRUE   *)
+(*       time is part of the environment: TFire(c) / TFirePC say that the      *)
+(*       instant a deadline names has come (a deadline "in the future" has     *)
+(*       become one "in the past"), the blocked read fails with a timeout, a   *)
+(*       stream worker closes its connection, the packet loop goes round.      *)
+(*       Nothing else in the server depends on time: in particular a           *)
+(*       Shutdown() -- the call WITHOUT a context, callers PlainShut -- is     *)
+(*       released by the drain only, however long the handlers take and        *)
+(*       whatever ReadTimeout / WriteTimeout / IdleTimeout say                 *)
+(*       (PlainShutdownWaits); only ShutdownContext's own ctx ends a wait      *)
+(*       early (ShCtx).                                                        *)
 (*  DEV2 MaxTCPQueries, Hijack, MsgAcceptFunc reject/ignore, short packets,    *)
 (*       DecorateReader/Writer and TLS handshakes are not modelled; a TLS      *)
 (*       listener is a Listener to server.go.                                   *)
@@ -49,6 +59,8 @@ CONSTANTS
   MaxReq,          \* tcp: requests per connection
   NPkts,           \* pc: packets 1..NPkts
   CtxMayExpire,    \* BOOLEAN: ShutdownContext's ctx may expire
+  PlainShut,       \* the shutdown callers (subset of 1..NShut) that call Shutdown(): no context, nothing expires
+  DeadlinesMayFire,\* BOOLEAN: time passes -- a read deadline in the future may come (TFire / TFirePC)
   ClientMayClose,  \* BOOLEAN: a client may close its connection at any time
   HandlerMayClose, \* BOOLEAN: a handler may call w.Close()
   HandlerMayHijack,\* BOOLEAN: a handler may call w.Hijack(): the connection is the handler's from then on
@@ -522,8 +534,9 @@ ShWake(h) ==                      \* case <-srv.shutdown
   /\ UNCHANGED <<fields, transp, svars, wvars, kvars, shgen, capt, kick, shseen, shtodo, cvars, hist>>
   /\ L(<<"ShWake", h>>)
 
-ShCtx(h) ==                       \* case <-ctx.Done()
-  /\ CtxMayExpire /\ shpc[h] = "wait"
+ShCtx(h) ==                       \* case <-ctx.Done(): only a ShutdownContext caller has a ctx that can be done;
+  /\ CtxMayExpire /\ shpc[h] = "wait"     \* Shutdown() passes context.Background()
+  /\ (h \notin PlainShut \/ Bug = "plain_gives_up")     \* broken variant: Shutdown() bounds its wait by a timer of its own
   /\ shres' = [shres EXCEPT ![h] = "ctx"]
   /\ shpc' = [shpc EXCEPT ![h] = IF HasPC THEN "after" ELSE "returned"]
   /\ UNCHANGED <<fields, transp, svars, wvars, kvars, shgen, capt, kick, shseen, shtodo, cvars, hist>>
@@ -566,6 +579,18 @@ CSendPkt ==
   /\ pin' = pin + 1
   /\ UNCHANGED <<fields, lsnOpen, pend, pcOpen, pcDL, svars, wvars, kvars, shvars, cst, csent, inbox, hist>>
   /\ L(<<"CSendPkt", psent + 1>>)
+
+TFire(c) ==                       \* time: the instant the read deadline of connection c names has come
+  /\ DeadlinesMayFire /\ dl[c] = "future"
+  /\ dl' = [dl EXCEPT ![c] = "past"]
+  /\ UNCHANGED <<fields, transp, svars, wpc, wown, copen, hrep, hclosed, hij, kvars, shvars, cvars, hist>>
+  /\ L(<<"TFire", c>>)
+
+TFirePC ==                        \* ... of the packet conn
+  /\ DeadlinesMayFire /\ pcDL = "future"
+  /\ pcDL' = "past"
+  /\ UNCHANGED <<fields, lsnOpen, pend, pcOpen, pin, svars, wvars, kvars, shvars, cvars, hist>>
+  /\ L(<<"TFirePC">>)
 
 HSetListener(l) ==                \* the harness assigns a fresh listener to srv.Listener (DEV3: only while not started,
   /\ Mode = "tcp" /\ l \in Lsn /\ l = lsnField + 1      \* and while no call is inside its critical section)
@@ -624,6 +649,7 @@ PacketStep(k)  == KStart(k) \/ KEnter(k) \/ KReply(k) \/ KExit(k) \/ KGone(k)
 ShutStep(h)    == ShBegin(h) \/ ShKickPC(h) \/ ShCloseL(h) \/ (\E c \in C : ShKick(h, c)) \/ ShUnlock(h) \/ ShCapture(h) \/ ShWake(h) \/ ShClosePC(h)
 ClientStep     == (\E c \in C : (\E l \in Lsn : CConnect(c, l)) \/ CSend(c) \/ CClose(c)) \/ CSendPkt
                   \/ (\E l \in Lsn : HSetListener(l) \/ HSpareLsn(l)) \/ HBreak \/ HFix \/ HSparePC \/ HClearPC
+                  \/ (\E c \in C : TFire(c)) \/ TFirePC
 
 Next == \/ \E p \in P : StarterStep(p) \/ ServeStep(p)
         \/ \E c \in C : WorkerStep(c)
@@ -711,6 +737,11 @@ LockDiscipline ==
   /\ \A h \in H : shpc[h] \in {"closing", "kick"} => lock = <<"h", h>>
 LockReleased == (lock # NoLock) ~> (lock = NoLock)
 NoCrash == crashed = "-"
+
+\* Shutdown() has no context: it comes back only through the drain (with nil), never by giving up -- not after
+\* the idle timeout, not after any other duration the server knows.  (GracefulReturn says what "ok" implies.)
+PlainShutdownWaits ==
+  \A h \in H : h \in PlainShut /\ ShDone(h) => shres[h] \in {"ok", "notstarted"}
 
 \* After Shutdown has begun (and until a new start), no reader is blocked behind a deadline in
 \* the future: what the `if srv.started' under RLock in readTCP/readUDP/readPacketConn is for.
